@@ -1,7 +1,7 @@
 """R-OPTKEY (K1 K2 K3), DECOR (get_label), R-SIBLING (reader options agree across formats)."""
 import ast
 
-from ..core import (AnalysisError, path, unparse, norm_test, facts_at, walk_own, split_assumes,
+from ..core import (AnalysisError, Unrecognised, path, unparse, norm_test, facts_at, walk_own, split_assumes,
                     const_str, no_kill_between)
 from ..events import name_defs, single_def
 from ..report import Ob
@@ -198,10 +198,10 @@ def r_decor(prog, tier):
     cfg = f.cfg
     kw = f.kwarg
     if not kw:
-        raise AnalysisError('get_label has no **params')
+        raise Unrecognised('get_label has no **params')
     rets = [n for n in walk_own(f.node) if isinstance(n, ast.Return)]
     if not rets:
-        raise AnalysisError('get_label has no return')
+        raise Unrecognised('get_label has no return')
     comp_vars_all = None
     for r in rets:
         v = r.value
@@ -428,7 +428,7 @@ def gf_split_pieces(prog, f):
         if len(ops) >= 3 and any(isinstance(o, ast.Attribute) and o.attr == 'label' for o in ops):
             found = (n, ops)
     if not found:
-        raise AnalysisError('no label re-assembly under gf_split in %s' % f.fq)
+        raise Unrecognised('no label re-assembly under gf_split in %s' % f.fq)
     n, ops = found
     lp = None
     for o in ops:
@@ -518,7 +518,7 @@ def r_sibling(prog, tier):
         ys = [n for n in cfg.eval_nodes() if n.kind == 'stmt' and isinstance(n.ast, ast.Expr)
               and isinstance(n.ast.value, ast.Yield)]
         if len(ys) != 1:
-            raise AnalysisError('%s has %d yield statements' % (f.fq, len(ys)))
+            raise Unrecognised('%s has %d yield statements' % (f.fq, len(ys)))
         y = ys[0]
         yv = unparse(y.ast.value.value)
         ok = False
@@ -601,7 +601,7 @@ def _sid_rules(prog):
             if n.kind == 'stmt' and isinstance(n.ast, ast.Assign) and unparse(n.ast.targets[0]).endswith(".data['sid']"):
                 stores.append(n)
         if len(stores) != 1:
-            raise AnalysisError('%s has %d stores of the sentence id' % (f.fq, len(stores)))
+            raise Unrecognised('%s has %d stores of the sentence id' % (f.fq, len(stores)))
         st = stores[0]
         v = st.ast.value
         if isinstance(v, ast.Name):
